@@ -8,9 +8,12 @@
    the key need not be injective).  Sanity of the theorem: with the writer's retry after a failed
    CAS processing-to-idle -> processing-to-required removed from the model, check_fast 2 0 and
    check_fast 1 1 evaluate to false.  Larger populations (3 writers; 2 writers + a CleanUp caller)
-   exhaust memory in this representation; the unbounded statement is not proved. *)
+   exhaust memory in this representation; the unbounded statement is not proved.
+   The model is tied to the code by the "sched" engine, which executes the real cache in macro steps
+   (hook point to hook point) and compares every macro step with DrainMacro.macro_step;
+   C14_macro_steps_are_runs shows those macro steps are runs of the small-step model. *)
 From stdpp Require Import gmap.
-From Otter Require Import Drain DrainProofs DrainBounded.
+From Otter Require Import Drain DrainProofs DrainBounded DrainMacro.
 
 (* soundness of the exploration: a closed set containing the initial configuration contains every
    configuration reachable under every schedule *)
@@ -19,6 +22,12 @@ Theorem C14_exploration_sound : forall V s0,
   forall s, reachable s0 s -> terminal s = true -> drained s = true.
 Proof. exact terminals_drained. Qed.
 Print Assumptions C14_exploration_sound.
+
+(* the units in which the correspondence engine executes the code are sequences of small steps of one
+   thread: every configuration it visits is reachable in the small-step model *)
+Theorem C14_macro_steps_are_runs : forall s0 s i, reachable s0 s -> reachable s0 (macro_step s i).
+Proof. exact macro_step_reachable. Qed.
+Print Assumptions C14_macro_steps_are_runs.
 
 (* one writer: under every schedule, when nothing can move any more, every thread has finished,
    the write buffer is empty, the drain status is idle and the eviction lock is free *)
